@@ -1297,7 +1297,7 @@ class Element(Mapping[str, Attribute]):
             match = re.match(br'<!--\s*DMXVersion\s+([a-z0-9]+)_v[a-z0-9]*\s*-->', header)
             if match is None:
                 raise ValueError(f'Invalid DMX header {bytes(header[:header_len])!r}!')
-            enc_name = match.group(0)
+            enc_name = match.group(1)
             if enc_name == b'sfm':
                 enc_name = b'binary'
             unicode = False
